@@ -29,6 +29,8 @@ def some_payload(t):
     """('field', ('variant', X, 'Some'), '0') -> X"""
     if isinstance(t, tuple) and t[0] == "field" and t[2] == "0" and t[1][0] == "variant" and t[1][2] == "Some":
         return t[1][1]
+    if isinstance(t, tuple) and len(t) == 2 and t[0] == "okval":
+        return t[1]
     return None
 
 
